@@ -14,7 +14,7 @@ from cxx2c import ExtractionBreak
 
 BUILD = os.path.join(ROOT, 'build')
 STUBS = os.path.join(ROOT, 'stubs')
-CBMC_FLAGS = ['--object-bits', '12', '--conversion-check', '--no-malloc-may-fail']
+CBMC_FLAGS = ['--object-bits', '12', '--conversion-check', '--no-malloc-may-fail', '--sat-solver', 'cadical']
 CBMC_TIMEOUT = int(os.environ.get('VERIF_CBMC_TIMEOUT', '300'))
 MEM_KB = 10 * 1024 * 1024
 
@@ -175,7 +175,8 @@ def parse_cbmc(out):
 
 class Job:
     def __init__(self, unit, jid, kind, ctext, entry, enforce=None, replace=(), loops=False, unwind=None, extra_flags=(),
-                 expect_fail=('verif_canary',), meta=None, timeout=None):
+                 expect_fail=('verif_canary',), meta=None, timeout=None, split=False):
+        self.split = split
         self.unit, self.id, self.kind, self.ctext, self.entry = unit, jid, kind, ctext, entry
         self.enforce, self.replace, self.loops, self.unwind = enforce, list(replace), loops, unwind
         self.extra_flags = list(extra_flags)
@@ -217,7 +218,10 @@ class Job:
             cmd += ['--unwind', str(self.unwind), '--unwinding-assertions']
         cmd += [gb]
         res['cmd'] = ' '.join(cmd)
-        rc, out, dt = sh(cmd, timeout=self.timeout)
+        if self.split:
+            rc, out, dt = self.run_split(cmd)
+        else:
+            rc, out, dt = sh(cmd, timeout=self.timeout)
         with open(base + '.log', 'w') as f:
             f.write(out)
         res['solver_s'] = dt
@@ -239,11 +243,57 @@ class Job:
         res['log'] = base + '.log'
         return res
 
-def trace_of(job):
+def _run_split(self, cmd):
+    """one obligation per run for the postconditions (float laws, DESIGN.md 2), every other property in one more run"""
+    t0 = time.time()
+    rc, out, _ = sh(cmd[:-1] + ['--show-properties', cmd[-1]], timeout=120)
+    names = re.findall(r'^Property ([^\s:]+):', out, re.M)
+    if rc != 0 or not names:
+        return rc if rc != 0 else 1, out, time.time() - t0
+    hard = [n for n in names if '.postcondition.' in n or '.assertion.' in n]
+    rest = [n for n in names if n not in hard]
+    groups = [[h] for h in hard] + ([rest] if rest else [])
+    def one(g):
+        c = cmd[:-1]
+        for n in g:
+            c += ['--property', n]
+        return sh(c + [cmd[-1]], timeout=self.timeout)
+    outs = []
+    worst = 0
+    with cf.ThreadPoolExecutor(max_workers=4) as ex:
+        for (r, o, d) in ex.map(one, groups):
+            outs.append(o)
+            if r == -9: worst = -9
+    allout = '\n'.join(outs)
+    verdicts = [('VERIFICATION SUCCESSFUL' in o) or ('VERIFICATION FAILED' in o) for o in outs]
+    if not all(verdicts):
+        allout = allout.replace('VERIFICATION SUCCESSFUL', 'verification successful (partial)').replace('VERIFICATION FAILED', 'verification failed (partial)')
+    elif any('VERIFICATION FAILED' in o for o in outs):
+        allout = allout.replace('VERIFICATION SUCCESSFUL', 'verification successful (partial)')
+    return worst, allout, time.time() - t0
+Job.run_split = _run_split
+
+def trace_of(job, prop_name=None):
     """re-run a failed job with --trace and return the text (bounded time)"""
     base = os.path.join(job.unit.work, job.id)
     gb = base + '.i.gb' if os.path.exists(base + '.i.gb') else base + '.gb'
     cmd = ['cbmc'] + CBMC_FLAGS + job.extra_flags + ['--trace', '--trace-hex']
+    if prop_name:
+        cmd += ['--property', prop_name]
+    if getattr(job, 'cex_ctext', None):
+        # first try the narrowed (replayable) variant
+        cb = base + '.cex'
+        open(cb + '.c', 'w').write(job.cex_ctext)
+        rc, out, _ = sh(['goto-cc', '-I', STUBS, '-I', os.path.join(ROOT, 'units'), '--function', job.entry, cb + '.c', '-o', cb + '.gb'], timeout=120)
+        if rc == 0:
+            ic = ['goto-instrument', '--dfcc', job.entry] + (['--enforce-contract', job.enforce] if job.enforce else [])
+            for r in job.replace: ic += ['--replace-call-with-contract', r]
+            if job.loops: ic += ['--apply-loop-contracts']
+            rc, out, _ = sh(ic + [cb + '.gb', cb + '.i.gb'], timeout=300)
+            if rc == 0:
+                rc, out, dt = sh(cmd + [cb + '.i.gb'], timeout=min(job.timeout, 300))
+                if 'Violated property' in out:
+                    return out
     if job.unwind is not None:
         cmd += ['--unwind', str(job.unwind), '--unwinding-assertions']
     rc, out, dt = sh(cmd + [gb], timeout=min(job.timeout, 300))
@@ -322,13 +372,13 @@ def build_contract_job(unit, fs):
     for pname, q in fs.get('mirror', {}).items():
         for (ty, fld) in cxx2c.struct_fields(unit.index, unit.cfg, q):
             if ty not in NONDET: continue
-            g = 'verif_in_%s_%s' % (pname, fld)
+            g = 'verif_in_%s_%s' % (re.sub(r'[^A-Za-z0-9]+', '_', pname).strip('_'), fld)
             mir_globals.append('%s %s;' % (ty, g))
             mir_assign.append('  %s = %s;' % (g, NONDET[ty]))
             if ty in ('double', 'float'):
-                mir_requires.append('(((%s*)%s)->%s == %s || (VERIF_ISNAN(((%s*)%s)->%s) && VERIF_ISNAN(%s)))' % (unit.cfg.types.base(q), pname, fld, g, unit.cfg.types.base(q), pname, fld, g))
+                mir_requires.append('(%s) == 0 || (((%s*)%s)->%s == %s || (VERIF_ISNAN(((%s*)%s)->%s) && VERIF_ISNAN(%s)))' % (pname, unit.cfg.types.base(q), pname, fld, g, unit.cfg.types.base(q), pname, fld, g))
             else:
-                mir_requires.append('((%s*)%s)->%s == %s' % (unit.cfg.types.base(q), pname, fld, g))
+                mir_requires.append('(%s) == 0 || ((%s*)%s)->%s == %s' % (pname, unit.cfg.types.base(q), pname, fld, g))
     h = mir_globals + ['void h_%s(void) {' % fs['cname']] + decl_lines + mir_assign
     h.append('  verif_exc = 0; verif_exc_caught = 0;')
     for g in fs.get('harness_pre', []):
@@ -340,12 +390,23 @@ def build_contract_job(unit, fs):
     protos = [unit.lowered[x['cname']].sig + ';' for x in m.FUNCS if x['cname'] not in replace and x['cname'] != fs['cname'] and x['cname'] not in inline]
     fs_m['requires'] += mir_requires
     parts[parts.index('@@MIRROR_GLOBALS@@')] = '\n'.join(mir_globals)
-    parts[parts.index('@@FNDEF@@')] = unit.fn_def(fs_m)
+    ifn = parts.index('@@FNDEF@@')
+    parts[ifn] = unit.fn_def(fs_m)
     h = h[len(mir_globals):]
     ctext = '\n'.join(parts[:1] + protos_for_wrappers(unit, fs, replace, inline) + parts[1:] + h)
-    return Job(unit, 'p_' + fs['cname'], 'contract', ctext, 'h_' + fs['cname'], enforce=fs['cname'],
+    cex_ctext = None
+    if fs.get('cex_requires'):
+        # narrowed variant used only to obtain a counterexample that the native adapter can replay
+        fs_c = dict(fs_m); fs_c['requires'] = fs_m['requires'] + list(fs['cex_requires'])
+        parts2 = list(parts); parts2[ifn] = unit.fn_def(fs_c)
+        cex_ctext = '\n'.join(parts2[:1] + protos_for_wrappers(unit, fs, replace, inline) + parts2[1:] + h)
+    return _with_cex(cex_ctext, Job(unit, 'p_' + fs['cname'], 'contract', ctext, 'h_' + fs['cname'], enforce=fs['cname'],
                replace=sorted(set(replace)), loops=bool(fs.get('loops')), extra_flags=fs.get('cbmc_flags', ()),
-               meta=dict(function=fs['qname'], cname=fs['cname']), timeout=fs.get('timeout'))
+               meta=dict(function=fs['qname'], cname=fs['cname']), timeout=fs.get('timeout'), split=fs.get('split', False)))
+
+def _with_cex(cex_ctext, job):
+    job.cex_ctext = cex_ctext
+    return job
 
 def protos_for_wrappers(unit, fs, replace, inline):
     """by-value constructor wrappers used by this function (defined after the constructor's contract declaration)"""
@@ -538,8 +599,9 @@ def main(argv):
     import replay as replay_mod
     vio_files = []
     seenjobs = {}
-    for (j, p) in all_viol:
-        path = replay_mod.write_violation(unit, j, p, results[j.id], trace_of)
+    for vi, (j, p) in enumerate(all_viol):
+        # traces and native replays for the first violations only; the rest are recorded without a trace
+        path = replay_mod.write_violation(unit, j, p, results[j.id], trace_of if vi < 6 else (lambda job, name=None: 'trace skipped: more than 6 violations in this run'))
         vio_files.append(path)
         conf = replay_mod.LAST_STATUS.get(path, 'no-failing-input-found')
         suffix = '' if conf == 'confirmed' else ' no-failing-input-found'
@@ -594,7 +656,7 @@ def write_evidence(unit, tier, seed, jobs, results, viol, hits, problems, wall):
         obligations=ptot, discharged=pok,
         checker_cmd='goto-cc --function h_<fn>; goto-instrument --dfcc h_<fn> --enforce-contract <fn> --replace-call-with-contract <callee>... --apply-loop-contracts; cbmc ' + ' '.join(CBMC_FLAGS),
         trusted_base=getattr(m, 'TRUSTED', []) + GLOBAL_TRUSTED,
-        back_end='cbmc 6.11.0, SAT (minisat2, built in)',
+        back_end='cbmc 6.11.0, SAT (cadical, built in)',
         functions_under_contract=fns,
         proof_jobs=[dict(id=j.id, kind=j.kind, obligations=len(results[j.id]['props']), status=results[j.id]['status'],
                          solver_s=round(results[j.id].get('solver_s', 0), 2), doc=j.meta.get('lemma', j.meta.get('function'))) for j in proof_jobs],
